@@ -4,7 +4,7 @@ import fnmatch
 from hypothesis import strategies as st
 from mitmproxy.test import tflow, tutils
 
-from hippolyzer.lib.base.datatypes import UUID, TupleCoord
+from hippolyzer.lib.base.datatypes import UUID, TupleCoord, TaggedUnion
 from hippolyzer.lib.base.message.udpdeserializer import UDPMessageDeserializer
 from hippolyzer.lib.base.message.udpserializer import UDPMessageSerializer
 from hippolyzer.lib.base.network.transport import Direction
@@ -35,7 +35,7 @@ ASSUMPTIONS = [
     "exported/imported messages are compared by value with sequences normalised (LLSD notation has only arrays) and by their re-encoded datagram",
     "filter literals are restricted to what the filter grammar can express (non-negative decimal numbers, hex, quoted strings, 3/4-tuples)",
 ]
-FLOORS = {"quick": {"pairs": 3000, "leaf_errors_possible": 500, "histories": 300, "h_overflow_refilter": 50, "persist": 300, "frozen_unparsed": 40,
+FLOORS = {"quick": {"pairs": 3000, "leaf_errors_possible": 500, "histories": 300, "h_overflow_refilter": 50, "persist": 300, "frozen_unparsed": 20, "entry:ou": 300,
                     "entry:LLUDP": 1000, "entry:EQ": 300, "entry:HTTP": 300, "entry:frozen": 300, "truth:true": 500, "truth:false": 500}}
 MANIFEST = {
     "text": "Program-level generation of filter expressions with a denotational oracle (fold of leaf truths + independent leaf "
@@ -80,6 +80,17 @@ def make_entry(desc):
         e = LLUDPMessageLogEntry(msg, region, sess)
         e.freeze()
         return e
+    if kind == "ou":
+        e = LLUDPMessageLogEntry(_object_update(desc), region, sess)
+        return e
+    if kind == "synthetic":
+        # a message the proxy (or an addon) built itself and logged before any circuit gave it a packet id
+        msg = gt.build(desc["case"])
+        msg.packet_id = None
+        msg.direction = Direction.OUT if desc.get("out", True) else Direction.IN
+        msg.synthetic = True
+        msg.dropped = bool(desc.get("dropped"))
+        return LLUDPMessageLogEntry(msg, region, sess)
     if kind in ("LLUDP", "frozen"):
         msg = DESER.deserialize(ref_datagram(desc["case"]))
         msg.direction = Direction.OUT if desc.get("out", True) else Direction.IN
@@ -99,7 +110,25 @@ def make_entry(desc):
     return HTTPMessageLogEntry(flow)
 
 
-ENTRY = st.one_of(
+def _object_update(desc):
+    """an ObjectUpdate as it comes off the wire, with a well-formed 60-byte ObjectData sub-structure (several 3-vectors)"""
+    from hippolyzer.lib.base.message.message import Block, Message
+    from hippolyzer.lib.base.datatypes import UUID as _UUID, Vector3 as _V3
+    from hippolyzer.lib.base.templates import PCode
+    b = Block("ObjectData", ID=desc["id"], FullID=_UUID(int=desc["id"] + 1), PCode=PCode.PRIMITIVE, Scale=_V3(0.5, 0.5, 0.5), UpdateFlags=0,
+              PathCurve=16, ParentID=0, ProfileCurve=1, PathScaleX=100, PathScaleY=100, NameValue=None, TextureEntry=b"",
+              TextColor=b"\x00\x00\x00\x00", ExtraParams=b"\x00", fill_missing=True)
+    m = Message("ObjectUpdate", Block("RegionData", RegionHandle=1, TimeDilation=1), b, packet_id=5, direction=Direction.IN)
+    b.serialize_var("ObjectData", (60, {"Position": tuple(desc["pos"]), "Velocity": tuple(desc["vel"]), "Acceleration": tuple(desc["acc"]),
+                                        "Rotation": (0.0, 0.0, 0.0, 1.0), "AngularVelocity": tuple(desc["ang"])}))
+    msg = DESER.deserialize(bytes(SER.serialize(m)))
+    msg.direction = Direction.IN
+    return msg
+
+
+_SMALL_VEC = st.tuples(*[st.sampled_from([0.0, 0.0, 1.0, 2.0, 3.5])] * 3)
+OU_ENTRY = st.fixed_dictionaries({"kind": st.just("ou"), "id": st.integers(1, 1000), "pos": _SMALL_VEC, "vel": _SMALL_VEC, "acc": _SMALL_VEC, "ang": _SMALL_VEC})
+ENTRY = st.one_of(OU_ENTRY, 
     st.fixed_dictionaries({"kind": st.sampled_from(["LLUDP", "LLUDP", "frozen", "frozen_unparsed"]), "out": st.booleans(),
                            "case": gt.message_case(finite=True, with_header=True, omit_trailing=False).map(
                                lambda c: dict(c, extra=b"", acks=c["acks"][:3]))}),
@@ -155,6 +184,21 @@ def leaf_for(draw, edesc):
     """a leaf as plain data: ("bare", text) | ("cmp", selector tuple, op, literal text, literal value or RHS tag)"""
     kind = edesc["kind"]
     choice = draw(st.integers(0, 9))
+    if kind == "ou":
+        if choice <= 1:
+            return ("bare", draw(st.sampled_from(["ObjectUpdate", "Object*", "*", "LLUDP", "ChatFromViewer"])))
+        if choice <= 7:
+            # 4-part selectors into the decoded ObjectData sub-structure, literal taken from one of its members (often not the first)
+            subs = ["Position", "Velocity", "Acceleration", "AngularVelocity"]
+            part = draw(st.sampled_from(["*", "*", "Velocity", "A*", "*ion", "Position", "NoSuch*"]))
+            src = draw(st.sampled_from(["pos", "vel", "acc", "ang", "other"]))
+            v = tuple(edesc[src]) if src != "other" else draw(_SMALL_VEC)
+            t, v = _lit(v)
+            op = draw(st.sampled_from(["==", "==", "!=", "<", ">=", "^="]))
+            if draw(st.integers(0, 5)) == 0:
+                return ("bare", "ObjectUpdate.ObjectData.ObjectData." + part)
+            return ("cmp", (draw(st.sampled_from(["ObjectUpdate", "*"])), "ObjectData", "ObjectData", part), op, t, v)
+        return ("cmp", ("ObjectUpdate", "ObjectData", draw(st.sampled_from(["ID", "ParentID", "*"]))), draw(st.sampled_from(OPS)), *_lit(draw(st.sampled_from([edesc["id"], 0, 7]))))
     if kind in ("LLUDP", "frozen", "frozen_unparsed"):
         name = edesc["case"]["name"]
         blocks = edesc["case"]["blocks"]
@@ -303,8 +347,40 @@ def _ref_cmp(op, val, expected):
     return False
 
 
+def _ref_sub_truth(entry, leaf):
+    """4-part selector: true iff SOME member of the decoded sub-structure whose name matches satisfies the comparison (or merely
+    exists, for a bare selector)"""
+    sel = leaf[1] if leaf[0] == "cmp" else tuple(leaf[1].split("."))
+    if not (fnmatch.fnmatchcase(entry.name, sel[0]) or fnmatch.fnmatchcase("LLUDP", sel[0])):
+        return False
+    for bn, blist in entry.message.blocks.items():
+        if not fnmatch.fnmatchcase(bn, sel[1]):
+            continue
+        for b in blist:
+            for k in b.vars:
+                if not fnmatch.fnmatchcase(k, sel[2]):
+                    continue
+                try:
+                    d = b.deserialize_var(k)
+                except Exception:
+                    continue
+                if isinstance(d, TaggedUnion):
+                    d = d.value
+                if not isinstance(d, dict):
+                    continue
+                for sk, sv in d.items():
+                    if fnmatch.fnmatchcase(str(sk), sel[3]) and (leaf[0] == "bare" or _ref_cmp(leaf[2], sv, leaf[4])):
+                        return True
+    return False
+
+
 def ref_leaf_truth(entry, leaf):
     """truth of a 3-part field comparison with a literal RHS, or None if this evaluator does not cover the leaf"""
+    if entry.type == "LLUDP" and entry.name == "ObjectUpdate" and (
+            (leaf[0] == "cmp" and len(leaf[1]) == 4 and leaf[1][0] != "Meta") or (leaf[0] == "bare" and leaf[1].count(".") == 3 and not leaf[1].startswith("Meta"))):
+        if leaf[0] == "cmp" and isinstance(leaf[4], tuple) and leaf[4] and leaf[4][0] in ("enum", "meta"):
+            return None
+        return _ref_sub_truth(entry, leaf)
     if leaf[0] != "cmp" or len(leaf[1]) != 3 or leaf[1][0] == "Meta" or (isinstance(leaf[4], tuple) and leaf[4] and leaf[4][0] in ("enum", "meta")):
         return None
     if entry.type != "LLUDP":
@@ -412,7 +488,17 @@ HIST_OP = st.one_of(
     st.tuples(st.just("filter"), st.sampled_from(FILTER_POOL), st.integers(0, 1)),
     st.tuples(st.just("pause"), st.integers(0, 1)), st.tuples(st.just("resume"), st.integers(0, 1)), st.tuples(st.just("clear"), st.integers(0, 1)),
 )
-HISTORY = st.fixed_dictionaries({"maxlen": st.integers(3, 8), "wrap": st.booleans(), "ops": st.lists(HIST_OP, min_size=3, max_size=30)})
+_EQ_ENTRY = {"kind": "EQ", "name": "FooEvent", "body": {"a": 1}}
+# starting sequences that take several specific steps: the retention window must still be in force after a clear(), also for
+# entries the current filter hides
+HIST_PROLOGUES = [
+    [], [], [], [],
+    [("filter", "HTTP", 0), ("clear", 0), ("burst", [_EQ_ENTRY] * 11), ("filter", "EQ", 0)],
+    [("log", _EQ_ENTRY), ("clear", 0), ("clear", 1), ("filter", "!*", 1), ("burst", [_EQ_ENTRY] * 10), ("filter", "*", 1)],
+]
+HISTORY = st.fixed_dictionaries({"maxlen": st.integers(3, 8), "wrap": st.booleans(), "prologue": st.sampled_from(HIST_PROLOGUES),
+                                 "ops": st.lists(HIST_OP, min_size=3, max_size=30)}).map(
+    lambda h: {"maxlen": h["maxlen"], "wrap": h["wrap"], "ops": list(h["prologue"]) + list(h["ops"])})
 
 
 class LogModel:
@@ -586,6 +672,11 @@ def persist_laws(ctx, edesc):
                 out.append(("freeze-thaw:unparsed-request-text", "%s: request text %r" % (e.name, text[:40])))
         except Exception as ex:
             out.append(("freeze-thaw:unparsed-raises:%s" % type(ex).__name__, "%s frozen before its body was parsed: %r" % (e.name, ex)))
+    elif edesc["kind"] == "synthetic":
+        if ctx is not None:
+            ctx.count("synthetic_entries")
+        before = _norm_seq(e.message.to_dict(extended=True))
+        dg = None
     elif e.type == "LLUDP":
         before = _norm_seq(e.message.to_dict(extended=True))
         dg = bytes(SER.serialize(e.message))
@@ -611,7 +702,7 @@ def persist_laws(ctx, edesc):
             if after != before:
                 keys = [k for k in before if after.get(k) != before[k]]
                 out.append(("export-import:message-differs:%s" % keys[0], "%s: re-imported message differs in %s" % (e.name, keys)))
-            elif bytes(SER.serialize(b.message)) != dg:
+            elif dg is not None and bytes(SER.serialize(b.message)) != dg:
                 out.append(("export-import:datagram-differs", "%s: re-imported message encodes to a different datagram" % e.name))
         except Exception as ex:
             out.append(("export-import:message-raises:%s" % type(ex).__name__, "%s: %r" % (e.name, ex)))
@@ -638,9 +729,9 @@ def persist_laws(ctx, edesc):
 # ---- shards ------------------------------------------------------------------------------------------------------
 def shards(tier):
     th = tier == "thorough"
-    sh = [{"kind": "filters", "n": 19000 if th else 420} for _ in range(10)]
+    sh = [{"kind": "filters", "n": 19000 if th else 600} for _ in range(10)]
     sh += [{"kind": "histories", "n": 4000 if th else 250} for _ in range(4)]
-    sh += [{"kind": "persist", "n": 10000 if th else 250} for _ in range(2)]
+    sh += [{"kind": "persist", "n": 10000 if th else 450} for _ in range(2)]
     return sh
 
 
@@ -663,7 +754,10 @@ def run_shard(ctx, shard):
         def body(edesc):
             ctx.case(edesc, nontrivial=True, classes=[])
             return persist_laws(ctx, edesc)
-        hyp_run(ctx, ENTRY, body, shard["n"])
+        synthetic = st.fixed_dictionaries({"kind": st.just("synthetic"), "out": st.booleans(), "dropped": st.booleans(),
+                                           "case": gt.message_case(names=SMALL_NAMES, finite=True, with_header=True, omit_trailing=False, allow_str=False).map(
+                                               lambda c: dict(c, extra=b"", acks=c["acks"][:2]))})
+        hyp_run(ctx, st.one_of(ENTRY, ENTRY, ENTRY, synthetic), body, shard["n"])
 
 
 def replay(ctx, case):
